@@ -44,6 +44,17 @@ pub enum ArrSpec {
     CurveFromSporadic { t: u64, j: u64 },
     /// `Curve::from_trace(trace, prefix_jobs)`, optionally wrapped as ExtrapolatingCurve
     FromTrace { trace: Vec<u64>, prefix_jobs: usize, extrapolating: bool },
+    /// `vals.collect::<Curve>()` (FromIterator: makes the delta-min vector monotone)
+    CurveFromIter { vals: Vec<u64>, extrapolating: bool },
+}
+
+/// running maximum
+pub fn running_max(v: &[u64]) -> Vec<u64> {
+    let mut out = v.to_vec();
+    for i in 1..out.len() {
+        out[i] = out[i].max(out[i - 1]);
+    }
+    out
 }
 
 pub type Ab = Rc<dyn ArrivalBound>;
@@ -106,6 +117,14 @@ impl ArrSpec {
             ArrSpec::CurveFromAcp { inner } => Rc::new(Curve::from(&inner.build_acp())),
             ArrSpec::CurveFromPeriodic { t } => Rc::new(Curve::from(Periodic::new(d(*t)))),
             ArrSpec::CurveFromSporadic { t, j } => Rc::new(Curve::from(Sporadic::new(d(*t), d(*j)))),
+            ArrSpec::CurveFromIter { vals, extrapolating } => {
+                let c: Curve = vals.iter().map(|x| d(*x)).collect();
+                if *extrapolating {
+                    Rc::new(ExtrapolatingCurve::new(c))
+                } else {
+                    Rc::new(c)
+                }
+            }
             ArrSpec::FromTrace { trace, prefix_jobs, extrapolating } => {
                 let c = Curve::from_trace(trace.iter().map(|x| Offset::from(*x)), *prefix_jobs);
                 if *extrapolating {
@@ -187,7 +206,7 @@ impl ArrSpec {
     }
     pub fn has_burst(&self) -> bool {
         self.any(&|x| match x {
-            ArrSpec::Curve { dmin, .. } | ArrSpec::AcpDirect { dmin, .. } => dmin.first() == Some(&0),
+            ArrSpec::Curve { dmin, .. } | ArrSpec::AcpDirect { dmin, .. } | ArrSpec::CurveFromIter { vals: dmin, .. } => dmin.first() == Some(&0),
             ArrSpec::Sporadic { t, j } | ArrSpec::CurveFromSporadic { t, j } => j >= t,
             ArrSpec::FromTrace { trace, .. } => trace.windows(2).any(|w| w[0] == w[1]),
             _ => false,
@@ -222,6 +241,7 @@ impl ArrSpec {
             ArrSpec::VecOf { items } | ArrSpec::SliceOf { items } => items.iter().map(|x| x.scale()).max().unwrap_or(1),
             ArrSpec::CurveOfJobs { inner, .. } | ArrSpec::CurveOfUntil { inner, .. } | ArrSpec::AcpOf { inner, .. } | ArrSpec::CurveFromAcp { inner } => inner.scale(),
             ArrSpec::FromTrace { trace, .. } => trace.last().copied().unwrap_or(1).max(1),
+            ArrSpec::CurveFromIter { vals, .. } => vals.iter().copied().max().unwrap_or(1).max(1),
         }
     }
 }
@@ -332,6 +352,7 @@ impl ArrSpec {
                 v
             }
             ArrSpec::Curve { dmin, .. } | ArrSpec::AcpDirect { dmin, .. } => curve_events(dmin, t0, horizon, ch, MAXEV),
+            ArrSpec::CurveFromIter { vals, .. } => curve_events(&running_max(vals), t0, horizon, ch, MAXEV),
             ArrSpec::Jittered { inner, j } | ArrSpec::Propagated { inner, j } => {
                 let base = inner.events(t0 - *j as i64, horizon, ch);
                 let mut v: Vec<i64> = base
@@ -540,6 +561,20 @@ pub fn leaf_strategy(g: ArrGen) -> BoxedStrategy<ArrSpec> {
             2,
             (dmin_loose_strategy(6, tmax), any::<bool>())
                 .prop_map(|(dmin, e)| ArrSpec::Curve { dmin, extrapolating: e })
+                .boxed(),
+        ));
+    }
+    if g.loose {
+        // arbitrary (also non-monotone) vectors through FromIterator; last entry of the running maximum > 0
+        opts.push((
+            1,
+            (proptest::collection::vec(0u64..=tmax, 1..=6), 1u64..=tmax, any::<bool>())
+                .prop_map(|(mut vals, last, e)| {
+                    if vals.iter().all(|x| *x == 0) {
+                        vals.push(last);
+                    }
+                    ArrSpec::CurveFromIter { vals, extrapolating: e }
+                })
                 .boxed(),
         ));
     }
